@@ -16,12 +16,13 @@ def handle (args : List String) (impl : String) : R Ans :=
     let bytes ← hexBytes h
     let m := if path == "scalar" then Avx2.fromAcgtBytesScalar bytes else Avx2.fromAcgtBytesVec bytes
     let model := match m with
-      | some d => s!"{showT d}|{txt ((DnaStr.toAsciiVec d).getD [])}"
+      | some d => s!"{showT d}|{txt ((DnaStr.toAsciiVec d).getD [])}|{txt ((DnaStr.display d).getD [])}"
       | none => "panic"
     -- property: A/C/G/T either case -> 0/1/2/3, every other byte -> A; identical on both paths; rendering back
     -- gives the upper-cased input with non-ACGT replaced by 'A'
     let bases := bytes.map KSpec.asciiToBase
-    let expect := s!"{showT ((DnaStr.fromBytes bases).getD DnaStr.new)}|{txt (bytes.map fun c => if isAcgt c then upper c else 65)}"
+    let up := txt (bytes.map fun c => if isAcgt c then upper c else 65)
+    let expect := s!"{showT ((DnaStr.fromBytes bases).getD DnaStr.new)}|{up}|{up}"
     pure { model, verdict := if impl == expect then "ok" else s!"FAIL:ingestion-differs-from-bytewise-conversion(expected {expect})" }
   | ["kernel", "convert", h] => do
     let bytes ← hexBytes h
@@ -41,8 +42,9 @@ def handle (args : List String) (impl : String) : R Ans :=
   | ["str", h] => do
     -- from_dna_string on ASCII text must agree with from_acgt_bytes on its bytes
     let bytes ← hexBytes h
-    let model := match Avx2.fromDnaString bytes with | some d => showT d | none => "panic"
-    let expect := showT ((DnaStr.fromBytes (bytes.map KSpec.asciiToBase)).getD DnaStr.new)
+    let model := match Avx2.fromDnaString bytes with | some d => s!"{showT d}|{txt ((DnaStr.display d).getD [])}" | none => "panic"
+    -- and `to_string()` of the result is the upper-cased text with every other character replaced by 'A'
+    let expect := s!"{showT ((DnaStr.fromBytes (bytes.map KSpec.asciiToBase)).getD DnaStr.new)}|{txt (bytes.map fun c => if isAcgt c then upper c else 65)}"
     pure { model, verdict := if impl == expect then "ok" else "FAIL:str-constructor-differs-from-byte-constructor" }
   | ["only", h] => do
     let bytes ← hexBytes h
